@@ -72,9 +72,14 @@ func TestWorker(t *testing.T) {
 	kernel.WorkerMain(t, &kernel.Check{
 		ID:     "C10",
 		Bubble: true,
-		Setup:  func() { cache.SimHook = kernel.HookPoint },
-		Run:    run,
-		After:  after,
+		Setup: func() {
+			cache.SimHook = kernel.HookPoint
+			if overlayHooks != nil {
+				overlayHooks()
+			}
+		},
+		Run:   run,
+		After: after,
 	})
 }
 
@@ -613,3 +618,7 @@ func confString(d *runData) string {
 	return fmt.Sprintf("lru=%v maxcount=%d maxsize=%d maxelem=%d ondelete=%v",
 		d.conf.EnableLRU, d.conf.MaxCount, d.conf.MaxSize, d.conf.MaxElementSize, d.conf.OnDelete != nil)
 }
+
+// overlayHooks is set by autoyield_test.go when the check is built with the
+// statement-level yield overlay.
+var overlayHooks func()
